@@ -295,4 +295,24 @@ example : parse [0x0D, 0x0A, 0x0D, 0x0A, 0x00, 0x0D, 0x0A, 0x51, 0x55, 0x49, 0x5
 example : parse [0x0D, 0x0A, 0x0D, 0x0A, 0x00, 0x0D, 0x0A, 0x51, 0x55, 0x49, 0x54, 0x0A,
       0x21, 0x11, 0x00, 0x0C, 1, 2, 3] = .v2 (.error (.partialHdr 3 12)) := by decide
 
+/-- The result of auto-detection — its tag and its class (accepted / incomplete / terminal) — is the
+function `Auto.verdict` of the classes of the two dedicated parsers' results on the same input:
+the whole property in one equation, and the form in which the correspondence run checks the
+implementation's composition (op `autoc`). -/
+theorem parse_verdict (x : B) :
+    ((parse x).isV2, (parse x).cls) = verdict (clsV2 (V2.parse x)) (clsV1 (V1.parseBytes x)) := by
+  unfold parse verdict
+  cases hv : V2.parse x with
+  | ok h => simp [isCompleteV2, isIncompleteV2, isErr, clsV2, HeaderResult.isV2, HeaderResult.cls]
+  | error e =>
+    cases hi : e.isIncomplete <;>
+      simp [isCompleteV2, isIncompleteV2, isErr, clsV2, hi, HeaderResult.isV2, HeaderResult.cls]
+
+/-- `verdict` spelled out: the nine cases of the statement. -/
+theorem verdict_table :
+    verdict .ok .ok = (true, .ok) ∧ verdict .ok .inc = (true, .ok) ∧ verdict .ok .term = (true, .ok) ∧
+    verdict .inc .ok = (true, .inc) ∧ verdict .inc .inc = (true, .inc) ∧ verdict .inc .term = (true, .inc) ∧
+    verdict .term .ok = (false, .ok) ∧ verdict .term .inc = (false, .inc) ∧ verdict .term .term = (false, .term) := by
+  decide
+
 end C06
